@@ -97,10 +97,94 @@ class SrcWireHarness:
                 self.rec(ctx, uid + "/repeats-the-requested-number-of-times", isinstance(got, SV) and got.t.eq(n.t) or (isinstance(got, SV) and got.t == n.t),
                          detail=f"repeat_count handed to repeat: {got!r}")
 
+    def run_timer_dispatch(self, ctx):
+        """timer_(duetime, period, scheduler): which of the four implementations runs, with which arguments; interval_(p, s) = timer(p, p, s)"""
+        TFILE = "reactivex/observable/timer.py"
+        uid = f"{TFILE}::timer_"
+        w = World2(self)
+        w.isinstance = lambda it_, o, cls: (getattr(cls, "name", "") or "").split(".")[-1] == "datetime" and o.kind == "abs_time"
+        it = Interp(self.loader, ctx, w)
+        calls = []
+
+        def hook(it_, f, args, kwargs):
+            if isinstance(f, Closure) and f.module is not None and f.module.name == "reactivex.observable.timer" and f.qualname.startswith("observable_timer_"):
+                calls.append((f.qualname, list(args), dict(kwargs)))
+                return Opaque("source", f.qualname)
+            if isinstance(f, Closure) and f.module is not None and f.module.name == "reactivex" and f.qualname == "timer":
+                calls.append(("rx.timer", list(args), dict(kwargs)))
+                return Opaque("source", "rx.timer")
+            return NOTSET
+        it.call_hook = hook
+        sched = Opaque("scheduler", "scheduler") if ctx.choose(2, "a scheduler is given") == 1 else None
+        absolute = ctx.choose(2, "the due time is a datetime") == 1
+        with_period = ctx.choose(2, "a period is given") == 1
+        due = Opaque("abs_time", "duetime") if absolute else ctx.fresh("duetime", "int")
+        period = ctx.fresh("period", "int") if with_period else None
+        f = it.module_get("reactivex.observable.timer", "timer_")
+        r = it.call(f, [due, period, sched], {})
+        want = {(True, False): "observable_timer_date", (True, True): "observable_timer_duetime_and_period",
+                (False, False): "observable_timer_timespan", (False, True): "observable_timer_timespan_and_period"}[(absolute, with_period)]
+        ok = len(calls) == 1 and calls[0][0] == want and isinstance(r, Opaque) and r.name == want
+        self.rec(ctx, uid + "/picks-the-implementation-for-the-kind-of-due-time-and-period", ok, detail=f"called {[c[0] for c in calls]}, expected {want}")
+        if ok:
+            a = calls[0][1] + list(calls[0][2].values())
+            exp = [due] + ([period] if with_period else []) + [sched]
+            self.rec(ctx, uid + "/hands-on-the-due-time-the-period-and-the-scheduler", len(a) == len(exp) and all(x is y for x, y in zip(a, exp)), detail=f"{a!r}")
+        # interval_
+        calls.clear()
+        IFILE = "reactivex/observable/interval.py"
+        g = it.module_get("reactivex.observable.interval", "interval_")
+        p2 = ctx.fresh("p", "int")
+        r2 = it.call(g, [p2, sched], {})
+        a2 = (calls[0][1] + list(calls[0][2].values())) if calls else []
+        self.rec(ctx, f"{IFILE}::interval_/is-the-timer-with-due-time-and-period-both-the-period", len(calls) == 1 and calls[0][0] == "rx.timer" and len(a2) == 3
+                 and a2[0] is p2 and a2[1] is p2 and a2[2] is sched and isinstance(r2, Opaque) and r2.name == "rx.timer", detail=f"{calls!r}")
+
+    def run_amb(self, ctx):
+        """amb_(s1, ..., sn) = the fold of the binary operator over never(): acc0 = never(), acc_k = s_k | amb(acc_{k-1}).  Every given source
+        appears exactly once (so, by the binary contract - the first to notify wins, the other is unsubscribed - and never() never
+        notifying, the result mirrors exactly the first of ALL the sources to notify)"""
+        AFILE = "reactivex/observable/amb.py"
+        uid = f"{AFILE}::amb_"
+        w = World2(self)
+        it = Interp(self.loader, ctx, w)
+        it.call_hook = self.hook
+        self.made = []
+        n = ctx.choose(4, "number of sources")
+        srcs = [Opaque("source", f"s{i + 1}", chain=()) for i in range(n)]
+        f = it.module_get("reactivex.observable.amb", "amb_")
+        try:
+            r = it.call(f, list(srcs), {})
+        except PyExc as e:
+            self.rec(ctx, uid + "/no-exception", False, detail=repr(e.value))
+            return
+        # unfold
+        seen = []
+        cur = r
+        ok = True
+        for k in range(n, 0, -1):
+            base = cur.attrs.get("base") if isinstance(cur, Opaque) else None
+            chain = list(cur.attrs.get("chain", ())) if isinstance(cur, Opaque) else []
+            if not (base is srcs[k - 1] and len(chain) == 1 and isinstance(chain[0], OpTerm) and chain[0].name == "amb" and len(chain[0].bound) == 1):
+                ok = False
+                break
+            seen.append(base)
+            cur = list(chain[0].bound.values())[0]
+        is_never = isinstance(cur, Opaque) and cur.attrs.get("factory") == "never" and not cur.attrs.get("args")
+        self.rec(ctx, uid + "/is-the-fold-of-the-binary-operator-over-never-with-every-source-exactly-once-in-order", ok and is_never and len(seen) == n,
+                 detail=f"result: {r!r}; innermost: {cur!r}")
+
     def run(self):
         t0 = time.time()
         try:
+            self.functions["reactivex/observable/amb.py::amb_"] = self.loader.sha("reactivex/observable/amb.py", "amb_")
+            for p in explore(self.run_amb):
+                self.results.extend(p.results)
             self.functions[f"{RFILE}::repeat_value_"] = self.loader.sha(RFILE, "repeat_value_")
+            self.functions["reactivex/observable/timer.py::timer_"] = self.loader.sha("reactivex/observable/timer.py", "timer_")
+            self.functions["reactivex/observable/interval.py::interval_"] = self.loader.sha("reactivex/observable/interval.py", "interval_")
+            for p in explore(self.run_timer_dispatch):
+                self.results.extend(p.results)
             for p in explore(self.run_repeat_value):
                 self.results.extend(p.results)
         except Unsupported as e:
@@ -123,6 +207,15 @@ class World2(FwdWorld):
         return super().call(it, o, method, args, kwargs)
 
 
+AMB_MUTANTS = {
+    "the last source is dropped": ("    for source in sources:\n", "    for source in sources[:-1] if len(sources) > 1 else sources:\n"),
+    "folds over the first source instead of never": ("    acc: Observable[_T] = never()\n", "    acc: Observable[_T] = sources[0] if sources else never()\n"),
+}
+TIMER_MUTANTS = {
+    "a datetime with a period goes to the one-shot timer": ("        if period is None:\n            return observable_timer_date(duetime, scheduler)\n        else:\n            return observable_timer_duetime_and_period(duetime, period, scheduler)",
+                                                            "        return observable_timer_date(duetime, scheduler)"),
+    "the scheduler is dropped": ("    if period is None:\n        return observable_timer_timespan(duetime, scheduler)", "    if period is None:\n        return observable_timer_timespan(duetime)"),
+}
 MUTANTS = {
     "count not normalised": ("    if repeat_count == -1:\n        repeat_count = None\n", ""),
     "repeats one time less": ("ops.repeat(repeat_count)", "ops.repeat(repeat_count - 1 if repeat_count else repeat_count)"),
@@ -135,6 +228,30 @@ MUTANTS = {
 def must_fail():
     out = {"mutants": 0, "killed": 0, "survivors": []}
     src = Loader().load_file(RFILE).src
+    asrc = Loader().load_file("reactivex/observable/amb.py").src
+    for name, (a, b) in AMB_MUTANTS.items():
+        if a not in asrc:
+            continue
+        ld = Loader()
+        ld.overrides = {"reactivex/observable/amb.py": asrc.replace(a, b, 1)}
+        h = SrcWireHarness(ld).run()
+        out["mutants"] += 1
+        if h.unsupported or any(r.verdict == "refuted" for r in h.results):
+            out["killed"] += 1
+        else:
+            out["survivors"].append(name)
+    tsrc = Loader().load_file("reactivex/observable/timer.py").src
+    for name, (a, b) in TIMER_MUTANTS.items():
+        if a not in tsrc:
+            continue
+        ld = Loader()
+        ld.overrides = {"reactivex/observable/timer.py": tsrc.replace(a, b, 1)}
+        h = SrcWireHarness(ld).run()
+        out["mutants"] += 1
+        if h.unsupported or any(r.verdict == "refuted" for r in h.results):
+            out["killed"] += 1
+        else:
+            out["survivors"].append(name)
     for name, (a, b) in MUTANTS.items():
         if a not in src:
             continue
@@ -155,7 +272,7 @@ def run_unit(desc):
     from .report import REPLAY_DIR, VERIF, native
     h = SrcWireHarness().run()
     prop = desc.get("prop", "C37")
-    rep = {"unit": f"{RFILE}::repeat_value_", "kind": "function contract of a composed source factory (wiring over the contracts of its parts)",
+    rep = {"unit": f"{RFILE}::repeat_value_+timer_+interval_", "kind": "function contract of a composed source factory (wiring over the contracts of its parts)",
            "functions": h.functions, "results": [r.as_dict() for r in h.results], "unsupported": h.unsupported, "spec_validation": [], "bounded": [],
            "replayable": {"runner": "srcrun.py", "module": "-", "name": "repeat_value"}}
     if h.unsupported:
